@@ -369,9 +369,12 @@ def executable_unit():
         f"None not in {sb} or None not in {bb}|": ("no_market_key", "B"),
         f"{sb}[None]|": ("sm", "Z"), f"{bb}[None]|": ("bm", "Z"),
         f"len({sb})|{sb}": ("sl", "Z"), f"len({bb})|{bb}": ("bl", "Z"),       # number of limit price levels (None key popped)
-        f"min(list(cast(Dict[float, int], {sb}).keys()))|{sb}": ("smin", "Q"),
-        f"max(list(cast(Dict[float, int], {bb}).keys()))|{bb}": ("bmax", "Q"),
     }
+    # the least / greatest key of a dict, in its equivalent spellings (iterating a dict iterates its keys; typing.cast is the identity)
+    for fn, d, name in (("min", sb, "smin"), ("max", bb, "bmax")):
+        for dd in (d, f"cast(Dict[float, int], {d})"):
+            for it in (dd, f"{dd}.keys()", f"list({dd})", f"list({dd}.keys())"):
+                mapped[f"{fn}({it})|{d}"] = (name, "Q")
     objects = {"sell_best": "cast(Order, self.sell_order_book.get_best_order())",
                "buy_best": "cast(Order, self.buy_order_book.get_best_order())",
                sb: "self.sell_order_book.get_price_volume()", bb: "self.buy_order_book.get_price_volume()"}
@@ -404,11 +407,11 @@ RESUME_EFFECT = """for m in self.target_markets.values():
 
 
 def _guards_to_ifs(fn):
-    """guard clauses and `continue` guards back to nested ifs (harness/pynorm.py steps 3, 3b): meaning-preserving"""
+    """guard clauses and `continue` guards back to nested ifs, `x = x + 1` as `x += 1` (harness/pynorm.py steps 3, 3b, 7): meaning-preserving"""
     import pynorm
     fn = copy.deepcopy(fn)
-    fn.body = pynorm.flips(pynorm.guards([q for q in fn.body if not (isinstance(q, ast.Expr) and isinstance(q.value, ast.Constant)
-                                                                      and isinstance(q.value.value, str))]))
+    fn.body = pynorm.augment(pynorm.flips(pynorm.guards([q for q in fn.body if not (isinstance(q, ast.Expr) and isinstance(q.value, ast.Constant)
+                                                                                     and isinstance(q.value.value, str))])))
     return fn
 
 
